@@ -346,6 +346,9 @@ func DeserializeData(s []byte, uncompress bool) ([]byte, CompressionFormat, erro
 		}
 		return data, compression, nil
 	case LZ4:
+		if len(cdata) < 4 {
+			return nil, 0, fmt.Errorf("LZ4 serialization too short (%d bytes) to hold its length prefix", len(cdata))
+		}
 		origSize := binary.LittleEndian.Uint32(cdata[0:4])
 		var data []byte
 		if origSize == 0 { // support legacy native Go lz4 stored values
@@ -365,7 +368,10 @@ func DeserializeData(s []byte, uncompress bool) ([]byte, CompressionFormat, erro
 			return nil, 0, err
 		}
 
-		data2 := imgdata.(*image.Gray)
+		data2, ok := imgdata.(*image.Gray)
+		if !ok {
+			return nil, 0, fmt.Errorf("JPEG serialization is not a grayscale image")
+		}
 		return data2.Pix, compression, nil
 	case Gzip:
 		b := bytes.NewBuffer(cdata)
